@@ -130,6 +130,7 @@ struct Truth
   double r1 = 35., r2 = 80.;                 // ranges along the main axis
   double ratio = 1., angle = 0.;             // anisotropy: range across = range / ratio; rotation (deg, about Z)
   int nest = 2;                              // 1: nugget + spherical; 2: + exponential
+  double nu = 0.;                            // > 0: nugget + Matern (K-Bessel) structure of this shape parameter instead
   double var[3] = {1., 2., 0.5};             // variances of the variables
   double rho[3] = {0.3, 0.6, 0.8};           // correlation (AR(1) pattern) per structure: nugget, sph, exp
 
@@ -159,6 +160,14 @@ struct Truth
     double sc = std::sqrt(var[i] * var[j]);
     if (recipe == "nugget") return d > 0 ? sc * corr(0, i, j) : 0.;
     if (recipe == "linear") return sc * corr(1, i, j) * redDist(h, 100.);
+    if (nu > 0.)
+    {
+      // Matern correlation 2^(1-nu) / Gamma(nu) x^nu K_nu(x), x = 2 sqrt(nu) * reduced distance / 0.6
+      double x = 2. * std::sqrt(nu) * redDist(h, r1) / 0.6;
+      double c = x < 1e-10 ? 1. : std::pow(2., 1. - nu) / std::tgamma(nu) * std::pow(x, nu) * std::cyl_bessel_k(nu, x);
+      double gm = (d > 0 ? nug * corr(0, i, j) : 0.) + (1. - nug) * corr(1, i, j) * (1. - c);
+      return sc * gm;
+    }
     double g = 0.;
     if (d > 0) g += nug * corr(0, i, j);
     double d1 = redDist(h, r1);
@@ -177,6 +186,7 @@ struct Truth
     double sc = std::sqrt(var[i] * var[j]);
     if (recipe == "nugget") return sc * corr(0, i, j);
     if (recipe == "linear") return sc * corr(1, i, j);
+    if (nu > 0.) return sc * (nug * corr(0, i, j) + (1. - nug) * corr(1, i, j));
     if (nest >= 2) return sc * (nug * corr(0, i, j) + s1 * corr(1, i, j) + s2 * corr(2, i, j));
     return sc * (nug * corr(0, i, j) + s1 * corr(1, i, j)) / (nug + s1);
   }
@@ -192,6 +202,7 @@ static Truth makeTruth(const Value& rq)
   t.ratio = tr.at("ratio").i();
   t.angle = tr.at("angle").i();
   t.nest = tr.at("nest").i();
+  t.nu = tr.geti("nu", 0) / 1000.;
   return t;
 }
 
